@@ -87,18 +87,18 @@ def pre_line(line: str) -> bool:
     return len(line) <= P.L and in_shard(len(line))
 
 
-@harness(pre=pre_line, quick=dict(L=12, timeout=300), thorough=dict(L=15, timeout=1200),
+@harness(pre=pre_line, quick=dict(L=12, timeout=300, reach_timeout=200), thorough=dict(L=15, timeout=1200, reach_timeout=300),
          nshards=dict(quick=1, thorough=4), reach=["accepted", "bad_version"],
          units=["httputil.parse_request_start_line", "httputil._ABNF.request_line"],
          stubs=[], outside=["lines longer than L code points (Engine B covers the regex for every length)",
                             "request-target is checked as 1*(VCHAR/obs-text), not against RFC 3986"])
 def h_request_line(line: str):
-    want = ref_request_line(line)
     try:
         got = httputil.parse_request_start_line(line)
         exc = None
     except HTTPInputError as e:
         got, exc = None, e
+    want = ref_request_line(line)
     if want is not None and want[2][5] == "1":
         reached("accepted")
         assert exc is None, "a well-formed HTTP/1.x request line was rejected"
@@ -109,17 +109,17 @@ def h_request_line(line: str):
         assert exc is not None, "a malformed request line was accepted"
 
 
-@harness(pre=pre_line, quick=dict(L=13, timeout=150), thorough=dict(L=15, timeout=1200),
+@harness(pre=pre_line, quick=dict(L=13, timeout=200, reach_timeout=200), thorough=dict(L=15, timeout=1200, reach_timeout=300),
          nshards=dict(quick=1, thorough=4), reach=["accepted", "with_reason"],
          units=["httputil.parse_response_start_line", "httputil._ABNF.status_line"],
          stubs=[], outside=["lines longer than L code points (Engine B covers the regex for every length)"])
 def h_status_line(line: str):
-    want = ref_status_line(line)
     try:
         got = httputil.parse_response_start_line(line)
         exc = None
     except HTTPInputError as e:
         got, exc = None, e
+    want = ref_status_line(line)
     if want is not None and want[0][5] == "1":
         reached("accepted")
         assert exc is None, "a well-formed HTTP/1.x status line was rejected"
@@ -137,7 +137,7 @@ def pre_total(f: int, s: str) -> bool:
     return 0 <= f <= 3 and len(s) <= (P.L0 if f == 0 else P.L) and in_shard(f)
 
 
-@harness(pre=pre_total, quick=dict(L=3, L0=2, timeout=150), thorough=dict(L=5, L0=4, timeout=1200),
+@harness(pre=pre_total, quick=dict(L=3, L0=2, timeout=150, reach_timeout=120), thorough=dict(L=5, L0=4, timeout=1200, reach_timeout=200),
          nshards=4, reach=["quoted_cookie", "with_port", "param"],
          units=["httputil._parse_header", "httputil._parseparam", "httputil.parse_cookie",
                 "httputil._unquote_cookie", "httputil.split_host_and_port"],
